@@ -97,6 +97,8 @@ v('C07', 'fire', KA, 'cho_solve((L, True), HP', 'cho_solve((L, False), HP')
 v('C07', 'fire', KA, 'S = HP @ H.T + R', 'S = HP @ H.T')
 v('C07 C19', 'fire', KA, 'K = cho_solve((L, True), HP, overwrite_b=True).T', 'K = cho_solve((L, True), P, overwrite_b=True).T')
 v('C07', 'silent', KA, 'U = np.eye(len(x)) - K.dot(H)', 'U = np.identity(len(x)) - K @ H')
+v('C08 C11 C12', 'fire', 'filters.py', "    G = np.zeros((n_states, n_noises))\n", "    if n_noises == 0:\n        return np.identity(n_states) + F * time_delta, np.zeros((n_states, n_states))\n\n    G = np.zeros((n_states, n_noises))\n", 'seeded C08 round 3: first-order shortcut when no noise is modelled')
+v('C08', 'fire', KA, "    n = len(F)\n", "    n = len(F)\n    if not np.any(Q):\n        return np.identity(n) + F * dt, np.zeros((n, n))\n", 'first-order shortcut inside compute_process_matrices')
 _DS_OLD = """        rn, _, rp = earth.principal_radii(0.5 * (first.lat + second.lat),
                                           0.5 * (first.alt + second.alt))"""
 v('C18', 'fire', 'transform.py', _DS_OLD, '        rn, _, rp = earth.principal_radii(first.lat, first.alt)', 'seeded C18 round 3: metre scale evaluated at the first operand')
